@@ -83,10 +83,11 @@ Proof.
   all: norm; try (eapply Hold; eauto; fail).
   all: try (split_ands; discriminate).
   all: try (apply add_targets_inv in Hx; destruct Hx as [[_ ->]|[_ Hx]]; [discriminate|eapply Hold; eauto]; fail).
-  inj_some. apply tstate_eqb_eq in Heqb1. subst prev. cbn in Heqb0. apply tstate_eqb_eq in Heqb0.
-  rewrite Heqb0 in Heqb. cbn in Heqb. apply tstate_eqb_eq in Heqb. subst new.
-  match goal with |- has_by (_ ++ [?ev]) ?ac _ => change ac with (e_by ev) end.
-  apply has_by_snoc_new. reflexivity.
+  all: inj_some; split_ands;
+       repeat match goal with H : tstate_eqb _ _ = true |- _ => apply tstate_eqb_eq in H end;
+       cbn [probe_next] in *; subst;
+       match goal with |- has_by (_ ++ [?ev]) ?ac _ => change ac with (e_by ev) end;
+       apply has_by_snoc_new; reflexivity.
 Qed.
 
 Lemma becoming_some : forall tg a ts t, becoming tg a ts = Some t ->
